@@ -16,6 +16,40 @@ using T0 = Tracked<0>;
 using T1 = Tracked<1>;
 using V = nop::Variant<T0, T1, int>;
 
+// converting assignment / construction: Tag converts to exactly one alternative (Conv), which tracks its lifetime
+struct Tag {};
+struct Conv : Tracked<2> {
+  Conv(Tag) : Tracked<2>(99) {}
+};
+using W = nop::Variant<Conv, int>;
+
+inline void variant_convert_ops() {
+  ghost_reset();
+  {
+    W w;
+    const bool start_int = nondet<bool>();
+    const int x = nondet<int>();
+    if (start_int) w = x;
+    const std::uint8_t op = nondet<std::uint8_t>();
+    if (op == 0) {
+      w = Tag{};  // converting assignment: the Conv alternative is constructed from the Tag
+      vt_check(w.index() == 0 && w.get<Conv>() != nullptr && w.get<Conv>()->value == 99 && w.get<int>() == nullptr, "converting assignment activates the alternative the value converts to");
+      vt_check(g_live == 1, "exactly one element alive after a converting assignment");
+      w = Tag{};  // again, onto the same alternative
+      vt_check(w.index() == 0 && g_live == 1, "converting assignment onto the same alternative keeps exactly one element alive");
+      w = x;
+      vt_check(w.index() == 1 && *w.get<int>() == x && g_live == 0, "assignment of another alternative destroys the converted element");
+    } else if (op == 1) {
+      W c{Tag{}};  // converting construction
+      vt_check(c.index() == 0 && c.get<Conv>()->value == 99 && g_live == 1, "converting construction");
+      W d(c);
+      vt_check(d.index() == 0 && d.get<Conv>()->value == 99 && g_live == 2, "copy of a converted element compares equal to its source");
+    }
+    vt_cover(op == 0 && start_int, "converting assignment over another alternative reached");
+  }
+  vt_check(g_live == 0 && g_ctor == g_dtor && g_bad == 0, "converted elements are destroyed exactly once");
+}
+
 inline void make_variant(V* v, int* k, int* val) {
   *k = static_cast<int>(nondet<std::uint8_t>() % 4) - 1;  // -1 empty, 0, 1, 2
   *val = nondet<int>();
@@ -124,3 +158,4 @@ inline void variant_ops() {
 }  // namespace vt
 
 VT_HARNESS(h_variant_ops) { vt::variant_ops(); }
+VT_HARNESS(h_variant_convert) { vt::variant_convert_ops(); }
